@@ -224,7 +224,12 @@ func c03(g *Gen) {
 		}
 		nm := mkSystems()[order]
 		byPkg := map[string]map[string][]string{}
+		listed := map[*types.Type]bool{}
 		add := func(table string, t *types.Type) {
+			if listed[t] {
+				return // one entry filed under two names (uint8 and byte, int32 and rune) is one entry
+			}
+			listed[t] = true
 			p := t.Name.Package
 			if byPkg[p] == nil {
 				byPkg[p] = map[string][]string{}
@@ -232,6 +237,7 @@ func c03(g *Gen) {
 			byPkg[p][table] = append(byPkg[p][table], list(atom(nm.Name(t)), atom(t.Name.Package), atom(t.Name.Name), atom(string(t.Kind))))
 		}
 		total := 0
+		_ = total
 		for _, p := range ctx.Universe {
 			for _, t := range p.Types {
 				add("types", t)
@@ -265,6 +271,24 @@ func c03(g *Gen) {
 			it = append(it, list(atom(nm.Name(t)), atom(t.Name.Package), atom(t.Name.Name), atom(string(t.Kind))))
 		}
 		g.Emit("C03.order", list(pk...), list(it...), "universe", "namer-"+order, "newcontext", "parsed-universe")
-		g.Emit("C03.newcontext!", list(atom(order), num(len(ctx.Order))), boolS(len(ctx.Order) == total), "newcontext")
+		g.Emit("C03.newcontext!", list(atom(order), num(len(ctx.Order))), boolS(len(ctx.Order) == len(listed)), "newcontext")
+		// every entry exactly once, also when the universe files it under two names
+		ub := types.Universe{}
+		for _, n := range []string{"uint8", "byte", "rune", "int32", "string"} {
+			ub.Type(types.Name{Name: n})
+		}
+		ub.Type(types.Name{Package: "ex.test/p", Name: "T"}).Kind = types.Struct
+		times := map[*types.Type]int{}
+		for _, t := range (&namer.Orderer{Namer: namer.NewPublicNamer(0)}).OrderUniverse(ub) {
+			times[t]++
+		}
+		var dup []string
+		for t, k := range times {
+			if k != 1 {
+				dup = append(dup, fmt.Sprintf("%s listed %d times", t.Name, k))
+			}
+		}
+		sort.Strings(dup)
+		g.Emit("C03.once!", list(atom(strings.Join(dup, "; ")), num(len(times))), boolS(len(dup) == 0 && len(times) == 4), "entry-filed-under-two-names")
 	}
 }
